@@ -1,6 +1,7 @@
 package main
 
 import (
+	"go/types"
 	"fmt"
 	"strings"
 
@@ -195,8 +196,40 @@ func c17LimitedWriter(c *Ctx) {
 	}
 	g := fi.GuardsOf(under)
 	c.Evals++
-	c.Check(labelHas(g, "GT("+recv+".N,const:0)"), "limited-writer/positive-remaining", "the underlying write is reachable only with N > 0 (otherwise the limit error)", w.InstrPos(under), "guards: "+summarizeLabels(g, 4))
-	// the slice written: p or p[:N], the latter whenever len(p) > N
+	// the budget B (bytes that may still be forwarded) and how it is accounted, in either of two forms:
+	//  (a) a remaining counter:  X.f = X.f - n        B = X.f              proceeds only if B > 0
+	//  (b) a written counter:    X.g = X.g + n        B = (X.limit - X.g)  proceeds only if X.g < X.limit
+	n0 := desc(under) + "#0"
+	var acct *ssa.Store
+	B, posLabel := "", ""
+	for _, b := range WR.Blocks {
+		for _, in := range b.Instrs {
+			st, ok := in.(*ssa.Store)
+			if !ok || !strings.HasPrefix(desc(st.Addr), recv+".") {
+				continue
+			}
+			fld := desc(st.Addr)
+			switch desc(st.Val) {
+			case "(" + fld + " - " + n0 + ")":
+				acct, B, posLabel = st, fld, "GT("+fld+",const:0)"
+			case "(" + fld + " + " + n0 + ")":
+				// the limit: the field the counter is compared with before the write
+				for l := range g {
+					if strings.HasPrefix(l, "LT("+fld+","+recv+".") {
+						lim := strings.TrimSuffix(strings.TrimPrefix(l, "LT("+fld+","), ")")
+						acct, B, posLabel = st, "("+lim+" - "+fld+")", l
+					}
+				}
+			}
+		}
+	}
+	if acct == nil {
+		c.Bad("limited-writer/decrement", "after the underlying write the budget is reduced by the number of bytes written (remaining -= n, or written += n), on every path", w.InstrPos(under), "no such accounting store")
+		c.Bad("limited-writer/positive-remaining", "the underlying write is reachable only with a positive remaining budget (otherwise the limit error)", w.InstrPos(under), "guards: "+summarizeLabels(g, 4))
+		return
+	}
+	c.Check(labelHas(g, posLabel), "limited-writer/positive-remaining", "the underlying write is reachable only with a positive remaining budget (otherwise the limit error)", w.InstrPos(under), "guards: "+summarizeLabels(g, 4))
+	// the slice written: p or p[:B], the latter whenever len(p) > B
 	arg := under.Call.Args[0]
 	okCut := false
 	if p, ok := arg.(*ssa.Phi); ok && len(p.Edges) == 2 {
@@ -205,50 +238,57 @@ func c17LimitedWriter(c *Ctx) {
 			d := desc(e)
 			switch d {
 			case pp:
-				// the uncut edge must be the 'len(p) <= N' edge
+				// the uncut edge must be the 'len(p) <= B' edge
 				pred := p.Block().Preds[i]
 				if iff, ok := blockTerm(pred).(*ssa.If); ok {
 					for j, s := range pred.Succs {
 						if s == p.Block() {
 							l := condLabel(iff.Cond, j == 0)
-							if l == "LE(len("+pp+"),"+recv+".N)" {
+							if l == "LE(len("+pp+"),"+B+")" {
 								full = true
 							}
 						}
 					}
 				}
-			case pp + "[:" + recv + ".N]":
+			case pp + "[:" + B + "]":
 				gl, _ := fi.mustPassBetween([]int{0}, map[int]bool{p.Block().Preds[i].Index: true})
-				if labelHas(gl, "GT(len("+pp+"),"+recv+".N)") {
+				if labelHas(gl, "GT(len("+pp+"),"+B+")") {
 					cutV = true
 				}
 			}
 		}
 		okCut = full && cutV
 	}
-	c.Check(okCut, "limited-writer/cut-to-remaining", "the bytes forwarded are p when len(p) <= N and p[:N] otherwise", w.InstrPos(under), "forwarded "+desc(arg))
-	// N decreases by the count written on every path after the write
+	c.Check(okCut, "limited-writer/cut-to-remaining", "the bytes forwarded are p when len(p) <= remaining budget and p[:remaining] otherwise", w.InstrPos(under), "forwarded "+desc(arg)+" with remaining budget "+B)
+	// the accounting happens on every path after the write
 	okDec := false
-	for _, b := range WR.Blocks {
-		for _, in := range b.Instrs {
-			st, ok := in.(*ssa.Store)
-			if !ok || desc(st.Addr) != recv+".N" {
-				continue
-			}
-			if desc(st.Val) == "("+recv+".N - "+desc(under)+"#0)" && (b == under.Block() || under.Block().Dominates(b)) {
-				cut := map[edgeKey]bool{}
-				if b != under.Block() {
-					cutInto(fi, b, cut)
-					if !fi.reachHit([]state{{under.Block().Index, 0, -1}}, cut, returnBlocks(WR)) {
-						okDec = true
-					}
-				} else {
+	{
+		b := acct.Block()
+		if b == under.Block() || under.Block().Dominates(b) {
+			cut := map[edgeKey]bool{}
+			if b != under.Block() {
+				cutInto(fi, b, cut)
+				if !fi.reachHit([]state{{under.Block().Index, 0, -1}}, cut, returnBlocks(WR)) {
 					okDec = true
+				}
+			} else {
+				okDec = true
+			}
+		}
+	}
+	// nothing else writes the counter or the limit
+	for _, fn := range w.FuncsOfPkg("internal/io") {
+		for _, b := range fn.Blocks {
+			for _, in := range b.Instrs {
+				if st, ok := in.(*ssa.Store); ok && st != acct && fn == WR && strings.HasPrefix(desc(st.Addr), recv+".") {
+					if _, isInt := st.Val.Type().Underlying().(*types.Basic); isInt {
+						okDec = false
+					}
 				}
 			}
 		}
 	}
-	c.Check(okDec, "limited-writer/decrement", "after the underlying write N is decreased by the number of bytes written, on every path", w.InstrPos(under), "N is not reduced by the written count")
+	c.Check(okDec, "limited-writer/decrement", "after the underlying write the budget is reduced by the number of bytes written (remaining -= n, or written += n), on every path, and nothing else in Write changes it", w.InstrPos(under), "the budget is not reduced by the written count")
 }
 
 func returnBlocks(fn *ssa.Function) map[int]bool {
@@ -269,7 +309,9 @@ func c17Runner(c *Ctx, OUT *ssa.Function) {
 	nCallers := 0
 	for _, fn := range w.FuncsOfPkg("plugin") {
 		for _, ci := range allCalls(fn) {
-			if call, ok := ci.(*ssa.Call); ok && strings.HasSuffix(calleeName(call), ".commander.Output") {
+			// an invoke through a module interface that the process starter's receiver type implements
+			if call, ok := ci.(*ssa.Call); ok && call.Call.IsInvoke() && OUT.Signature.Recv() != nil && call.Call.Method.Name() == OUT.Name() &&
+				strings.HasPrefix(calleeName(call), "invoke:ngo/plugin.") && types.Implements(OUT.Signature.Recv().Type(), call.Call.Value.Type().Underlying().(*types.Interface)) {
 				RUN, oc = fn, call
 				nCallers++
 			}
